@@ -335,7 +335,9 @@ func runC15(r *Run) {
 		// idleTimeout defaults from config when unset
 		def := false
 		for _, fr := range fieldRefs(ss) {
-			if fr.Write && fr.Name == "session.Session.idleTimeout" && fr.Val != nil && loadOfField(fr.Val, "session.Config.IdleTimeout") {
+			// (directly, or as one outcome of a helper that chooses between the session's own value and the configured one)
+			if fr.Write && fr.Name == "session.Session.idleTimeout" && fr.Val != nil &&
+				(loadOfField(fr.Val, "session.Config.IdleTimeout") || dependsOn(fr.Val, func(v ssa.Value) bool { return loadOfField(v, "session.Config.IdleTimeout") }) != nil) {
 				def = true
 			}
 		}
